@@ -1,6 +1,8 @@
 // vt-build: light
-// vt-src: common/iovector.cpp common/checksum/crc.cpp common/checksum/crc_tables.cpp
 // vt-flags: -fno-sanitize=null,alignment,pointer-overflow -O2
+// (the few /repo sources needed are #included at the end of this file instead of being listed as "vt-src": the harness
+//  Makefile records header dependencies of the last translation unit only, and a change to rpc/serialize.h or
+//  common/iovector.h must rebuild this harness)
 //
 // C12 harness: runs the REAL rpc::SerializerIOV / rpc::DeserializerIOV (rpc/serialize.h) and the iovector
 // they use on message types built from every field kind, over an exhaustive small scope (every length in a
@@ -403,8 +405,24 @@ struct Shape { const char* name; Inst (*build)(const char*, Chooser&); void (*ru
 
 static uint64_t g_id = 0, g_start = 0, g_only = ~0ull; static volatile uint64_t* g_shared = nullptr;
 static bool g_nofork = false; static uint64_t g_fatals = 0;
-static inline uint64_t rd64(const std::string& b, size_t off) { uint64_t v; memcpy(&v, &b[off], 8); return v; }
-static inline void wr64(std::string& b, size_t off, uint64_t v) { memcpy(&b[off], &v, 8); }
+// an instance whose construction (real serializer + bookkeeping) is fatal is reported once and then left out
+static std::vector<std::pair<std::string, uint64_t>> g_skip;
+static int g_shape_no = 0;
+static bool skipped(const char* kind, uint64_t idx) {
+    std::string k = std::string(kind) + std::to_string(g_shape_no);
+    for (auto& s : g_skip) if (s.first == k && s.second == idx) return true;
+    return false;
+}
+static void set_desc(const std::string& desc);
+static void building(const char* shape, const char* kind, uint64_t idx) {
+    g_shared[2] = kind[0]; g_shared[3] = idx;
+    set_desc("\"id\":-1,\"shape\":\"" + std::string(shape) + "\",\"mode\":\"build\",\"ck\":false,\"S\":1,\"N\":0,\"sch\":[],\"W\":[" +
+             std::to_string(idx) + "],\"SL\":[],\"part\":[],\"alt\":-1");
+    g_stage = "build";
+}
+// (bounds-checked: if the serializer under test misplaces things the harness must still be able to say so)
+static inline uint64_t rd64(const std::string& b, size_t off) { uint64_t v = 0; if (off + 8 <= b.size() && off + 8 >= 8) memcpy(&v, &b[off], 8); return v; }
+static inline void wr64(std::string& b, size_t off, uint64_t v) { if (off + 8 <= b.size() && off + 8 >= 8) memcpy(&b[off], &v, 8); }
 static inline long capu(uint64_t v) { return (long)std::min<uint64_t>(v, MAXW); }
 static inline long caps(uint64_t v) { return (int64_t)v < 0 ? -1 : capu(v); }
 
@@ -549,8 +567,7 @@ static void run_case(const Shape& sh, const Inst& in, const char* mode, const st
     std::string desc = "\"id\":" + std::to_string(id) + ",\"shape\":\"" + in.shape + "\",\"mode\":\"" + mode + "\",\"ck\":" + (in.ck ? "true" : "false") +
              ",\"S\":" + std::to_string(in.S) + ",\"N\":" + std::to_string(N) + ",\"sch\":[" + in.sch + "],\"W\":" + W.str() + ",\"SL\":" + SL.str() +
              ",\"part\":" + P.str() + ",\"alt\":" + std::to_string(mu.alt);
-    if (desc.size() >= DESC_MAX) desc = "\"id\":" + std::to_string(id) + ",\"toolong\":true";
-    memcpy(g_desc, desc.c_str(), desc.size() + 1);
+    set_desc(desc); g_shared[2] = 0;
     g_stage = "deser"; g_fwi = 0; g_asan[0] = 0;
     {
         IOVector iov(IOAlloc(IOAlloc::Allocator(nullptr, &rec_alloc), IOAlloc::Deallocator(nullptr, &rec_dealloc)));
@@ -569,6 +586,10 @@ static void run_case(const Shape& sh, const Inst& in, const char* mode, const st
     vt::flush();
 }
 
+static void set_desc(const std::string& desc) {
+    if (desc.size() >= DESC_MAX) return;
+    memcpy(g_desc, desc.c_str(), desc.size() + 1);
+}
 // runs body() in a forked child; a fatal case ends the child (after its Fatal line) and the rest is run by the next child
 template <class F> static void guarded(F body) {
     if (g_nofork) { body(); return; }
@@ -579,7 +600,12 @@ template <class F> static void guarded(F body) {
         if (pid == 0) { g_id = id0; body(); vt::flush(); g_shared[1] = g_id; _exit(0); }
         int st = 0; waitpid(pid, &st, 0);
         if (WIFEXITED(st) && WEXITSTATUS(st) == 0) { g_id = g_shared[1]; return; }
-        if (WIFEXITED(st) && WEXITSTATUS(st) == 3) { g_fatals++; g_start = g_shared[0] + 1; continue; }   // Fatal line written by the child
+        if (WIFEXITED(st) && WEXITSTATUS(st) == 3) {       // Fatal line written by the child
+            g_fatals++;
+            if (g_shared[2]) { g_skip.push_back({std::string(1, (char)g_shared[2]) + std::to_string(g_shape_no), g_shared[3]}); g_shared[2] = 0; }
+            else g_start = g_shared[0] + 1;
+            continue;
+        }
         fprintf(stdout, "h_serialize: child ended unexpectedly (status %d) at case %lu\n", st, (unsigned long)g_shared[0]);
         exit(4);
     }
@@ -690,14 +716,20 @@ static void run_shape_exhaustive(const Shape& sh, int phase) {
     std::vector<int> d(dry.doms.size(), 0);
     size_t ninst = 0;
     for (;;) {                   // exhaustive over the digits
-        Chooser ch; ch.digits = d;
-        g_pat = 0;
-        Inst in = sh.build(sh.name, ch);
         bool last = true; for (size_t i = 0; i < d.size(); i++) last &= (d[i] == dry.doms[i] - 1);
         // hostile sweeps on the fullest instance (every field non-empty) and, thorough, on the emptiest one too
         bool hostile = last || (g_thorough && ninst == 0);
-        if (!phase) sweep_rt(sh, in);
-        else if (hostile) guarded([&] { sweep_hostile(sh, in); });
+        if (!skipped("e", ninst) && (!phase || hostile)) {
+            Chooser ch; ch.digits = d;
+            g_pat = 0;
+            if (!phase) {
+                building(sh.name, "e", ninst);
+                Inst in = sh.build(sh.name, ch);
+                sweep_rt(sh, in);
+            } else {
+                guarded([&] { building(sh.name, "e", ninst); Inst in = sh.build(sh.name, ch); sweep_hostile(sh, in); });
+            }
+        }
         ninst++;
         size_t i = 0; for (; i < d.size(); i++) { if (++d[i] < dry.doms[i]) break; d[i] = 0; }
         if (i == d.size()) break;
@@ -709,6 +741,8 @@ static void run_shape(const Shape& sh) {
     // seeded random larger instances of this shape
     guarded([&] {
       for (int k = 0; k < g_random; k++) {
+        if (skipped("r", k)) continue;
+        building(sh.name, "r", k);
         vt::Rng r(g_seed * 1000003 + g_id * 7919 + k);
         Chooser ch; ch.rnd = true; ch.r = &r; ch.maxlen = r.coin(30) ? 8 : (g_thorough ? 1500 : 200);
         g_pat = r.below(251);
@@ -786,8 +820,17 @@ int main(int argc, char** argv) {
     for (int s : {SIGSEGV, SIGBUS, SIGABRT, SIGFPE, SIGILL, SIGALRM}) signal(s, my_fatal);
     __asan_set_error_report_callback(asan_report);
     if (!vt::flag(argc, argv, "--stderr")) { if (!freopen("/dev/null", "w", stderr)) {} }
-    for (auto& sh : all_shapes()) if (!only_shape[0] || !strcmp(only_shape, sh.name)) run_shape(sh);
+    for (auto& sh : all_shapes()) { g_shape_no++; if (!only_shape[0] || !strcmp(only_shape, sh.name)) run_shape(sh); }
     vt::close();
     printf("cases=%lu fatal=%lu\n", (unsigned long)g_id, (unsigned long)g_fatals);
     return 0;
 }
+
+// ---- the library sources this harness needs, compiled into this translation unit (see the note at the top) ----
+#ifndef C12_IOVECTOR_CPP
+#define C12_IOVECTOR_CPP "/repo/common/iovector.cpp"
+#endif
+#include C12_IOVECTOR_CPP
+#undef protected
+#include "/repo/common/checksum/crc.cpp"
+#include "/repo/common/checksum/crc_tables.cpp"
